@@ -55,21 +55,25 @@ GBeginF ==
     /\ UNCHANGED <<mem, k, last>>
 
 Matching == {p \in plans : k < Len(p.cmds) /\ p.cmds[k + 1].u = Ev.u /\ p.cmds[k + 1].d = Ev.d}
+\* relax "Plan": second pass over a trace whose commands deviate from every plan - the commands are taken as they
+\* are (only the simulated tag's semantics apply), so that the property invariants still judge the real behaviour
+Free == Relaxed("Plan")
 GCmd ==
     /\ IsEv("Cmd") /\ pc = "run"
-    /\ Matching # {}
-    /\ plans' = Matching
+    /\ Free \/ Matching # {}
+    /\ plans' = IF Matching # {} THEN Matching ELSE plans
     /\ mem' = Store(lay, mem, Ev.u, Ev.d)
-    /\ last' = [u |-> Ev.u, ph |-> (CHOOSE p \in Matching : TRUE).cmds[k + 1].ph, any |-> TRUE]
+    /\ last' = [u |-> Ev.u, ph |-> IF Matching # {} THEN (CHOOSE p \in Matching : TRUE).cmds[k + 1].ph ELSE 0,
+                any |-> TRUE]
     /\ k' = k + 1
     /\ UNCHANGED <<pc, op, msg>>
 
 GRet ==
     /\ IsEv("Ret")
-    /\ CASE Ev.res = "ok"     -> pc = "run" /\ (\E p \in plans : Len(p.cmds) = k /\ p.res = "ok") /\ pc' = "done"
-         [] Ev.res = "crash"  -> pc = "run" /\ (\E p \in plans : Len(p.cmds) = k /\ p.res = "crash") /\ pc' = "crashed"
-         [] Ev.res = "reject" -> pc = "rejected" /\ pc' = "rejected"
-         [] Ev.res = "cut"    -> pc = "run" /\ (\E p \in plans : k < Len(p.cmds)) /\ pc' = "cut"
+    /\ CASE Ev.res = "ok"     -> pc = "run" /\ (Free \/ \E p \in plans : Len(p.cmds) = k /\ p.res = "ok") /\ pc' = "done"
+         [] Ev.res = "crash"  -> pc = "run" /\ (Free \/ \E p \in plans : Len(p.cmds) = k /\ p.res = "crash") /\ pc' = "crashed"
+         [] Ev.res = "reject" -> (pc = "rejected" \/ (Free /\ pc = "run")) /\ pc' = "rejected"
+         [] Ev.res = "cut"    -> pc = "run" /\ (Free \/ \E p \in plans : k < Len(p.cmds)) /\ pc' = "cut"
          [] OTHER -> FALSE
     /\ UNCHANGED <<mem, plans, k, op, msg, last>>
 
@@ -82,7 +86,7 @@ Guarded == GBeginW \/ GBeginF \/ GCmd \/ GRet \/ GView
 \* ---- logged results ------------------------------------------------------------------------
 NSkip == Cardinality({a \in lay.skip : a < Size(lay.mem0)})
 ResOk ==
-    CASE Ev.a = "Begin" -> Ev.off = lay.off /\ Ev.cap = CodeCap(lay) /\ Ev.nskip = NSkip
+    CASE Ev.a = "Begin" -> Free \/ (Ev.off = lay.off /\ Ev.cap = CodeCap(lay) /\ Ev.nskip = NSkip)
       [] Ev.a = "Ret"   -> Ev.n = k /\ Ev.mem = mem
       [] Ev.a = "View"  -> LET r == RefRead(lay, mem) IN
                            CASE r.k = "ndef" -> Ev.k = "ndef" /\ Ev.v = r.v
